@@ -35,7 +35,10 @@ peg::parser! {
 
         // Match balanced braces and capture everything including the braces
         rule balanced_braces() -> &'input str
-            = json:$( "{" (balanced_braces() / json_string() / (!"}" [_]))* "}" ) {
+            // A nested block that does not close can only fail at the end of the input, and then the
+            // enclosing block fails too; not re-reading its '{' as a plain character keeps the
+            // result and avoids re-scanning the rest once per unclosed brace (2^n steps).
+            = json:$( "{" (balanced_braces() / json_string() / (!['{' | '}'] [_]))* "}" ) {
                 json
             }
 
